@@ -363,13 +363,18 @@ func (e *Exec) ndValues() ([]NDValue, error) {
 			} else if lv, err := e.S.Values([]*Term{e.C.App("len!", BV(64), n.Term)}); err == nil && len(lv) == 1 {
 				// an arbitrary string: the replay gets one of the model's length (its content is "sym-<code>" padded)
 				if l, err := ParseValue(lv[0], BV(64)); err == nil && l > 0 && l <= 1<<16 {
-					base := fmt.Sprintf("sym-%d", u)
+					digits := fmt.Sprint(u)
+					if uint64(len(digits)) > l-1 {
+						digits = digits[uint64(len(digits))-(l-1):]
+					}
+					base := "s" + digits
+					if l == 1 {
+						base = fmt.Sprint(u % 10)
+					}
 					for uint64(len(base)) < l {
 						base += "x"
 					}
-					if uint64(len(base)) == l {
-						nv.S = base
-					}
+					nv.S = base
 				}
 			}
 		}
